@@ -119,6 +119,8 @@ def run_property(prop, tier, seed, only=None, jobs=None, verbose=True):
       if c.replay is not None and f.witness is not None:
         try:
           reproduced, text = c.replay(f.witness)
+          reproduced = bool(reproduced)
+          text = str(text)
         except Exception:  # pylint: disable=broad-except
           text = 'replay crashed: ' + traceback.format_exc()
       with open(os.path.join(core.VERIF, path)) as fh:
@@ -183,8 +185,9 @@ def run_property(prop, tier, seed, only=None, jobs=None, verbose=True):
       'violations': len(violations),
   }
   if not only:
-    os.makedirs(os.path.join(core.VERIF, 'evidence'), exist_ok=True)
-    with open(os.path.join(core.VERIF, 'evidence', f'{prop}.json'), 'w') as f:
+    evdir = os.environ.get('VERIF_EVIDENCE_DIR') or os.path.join(core.VERIF, 'evidence')
+    os.makedirs(evdir, exist_ok=True)
+    with open(os.path.join(evdir, f'{prop}.json'), 'w') as f:
       json.dump(ev, f, indent=1)
 
   if verbose:
@@ -222,6 +225,7 @@ def replay(prop, path):
     print('no concrete input to replay (no-failing-input-found); the obligation above is the violation')
     return 1
   ok, text = c.replay(rp['witness'])
+  ok = bool(ok)
   print(text)
   print('REPRODUCED on real code' if ok else 'not reproduced on real code')
   return 1 if ok else 0
